@@ -221,7 +221,18 @@ def run(ck, ix, tier):
     # mul multiplies, div divides all following units
     for op, aug in (("mul", ast.Mult), ("div", ast.Div), ("delta,div", ast.Div), ("invdiv", ast.Div)):
         branch = [t for t in walk_local(gop.node) if isinstance(t, ast.If) and norm(t.test) == f"unit_op == '{op}'"]
-        ok = bool(branch) and any(isinstance(a, ast.AugAssign) and isinstance(a.op, aug) and norm(a.value) == "x.units" for s_ in branch[0].body for a in ast.walk(s_))
+        def unit_accumulations(stmts, depth=1):
+            """AugAssign operators applied with `<arg>.units` in these statements or in a private module-level helper they call"""
+            out = []
+            for s_ in stmts:
+                for a in ast.walk(s_):
+                    if isinstance(a, ast.AugAssign) and norm(a.value).endswith(".units"):
+                        out.append(type(a.op))
+                    if depth and isinstance(a, ast.Call) and isinstance(a.func, ast.Name) and a.func.id.startswith("_") and a.func.id in m.functions:
+                        out += unit_accumulations(m.functions[a.func.id].node.body, depth - 1)
+            return out
+        ops_ = unit_accumulations(branch[0].body) if branch else []
+        ok = bool(ops_) and all(o is aug for o in ops_)
         ck.check(ok, "G-TABLE", f"get_op_output_unit|{op}-accumulates", gop.loc(), f"{op} accumulates x.units with {'*' if aug is ast.Mult else '/'}", f"get_op_output_unit: `{op}` no longer accumulates the argument units with {'*=' if aug is ast.Mult else '/='}")
 
     # _numpy_method_wrap consults the same tables
@@ -348,10 +359,28 @@ def run(ck, ix, tier):
     for q, var in (("NumpyQuantity.clip", "min"), ("NumpyQuantity.clip", "max"), ("NumpyQuantity.put", "values"), ("NumpyQuantity.searchsorted", "v")):
         f = ix.func(NQ, q)
         ck.analysed(f)
-        src = norm(f.node)
-        ok = f"{var} = {var}.to(self).magnitude" in src
-        ck.check(ok, "G-TAG", f"{q}|{var}-converted-to-own-units", f.loc(), f"{var} is converted to the array's units", f"{q}: `{var}` is no longer converted to the units of the array before use")
-        ck.check("raise DimensionalityError('dimensionless', self._units)" in src, "G-DOM", f"{q}|bare-{var}-needs-dimensionless", f.loc(), "a bare number is only accepted for dimensionless arrays", f"{q}: a bare `{var}` is accepted for dimensional arrays")
+        from .. import shape as _shc
+        # the method itself and the private helpers it hands `var` to (an extracted `_clip_bound_magnitude(bound)`)
+        scope = [(f.node, var)]
+        for c_ in walk_local(f.node):
+            if isinstance(c_, ast.Call) and isinstance(c_.func, ast.Attribute) and norm(c_.func.value) == "self" and c_.func.attr.startswith("_") and any(norm(a_) == var for a_ in c_.args):
+                g_ = f.cls.methods.get(c_.func.attr) if f.cls is not None else None
+                if g_ is not None:
+                    ps_ = [a_.arg for a_ in g_.node.args.args][1:]
+                    idx_ = [i for i, a_ in enumerate(c_.args) if norm(a_) == var][0]
+                    if idx_ < len(ps_):
+                        scope.append((g_.node, ps_[idx_]))
+        conv, guard = False, False
+        for fn_, v_ in scope:
+            is_q = lambda a_, v_=v_: isinstance(a_, ast.Call) and call_name(a_) == "isinstance" and a_.args and norm(a_.args[0]) == v_ and "self.__class__" in norm(a_.args[1])
+            dimless = lambda a_: norm(a_) == "self.dimensionless"
+            for x in ast.walk(fn_):
+                if isinstance(x, ast.Attribute) and x.attr == "magnitude" and norm(x.value) == f"{v_}.to(self)" and _shc.holds_at(x, fn_, is_q, True):
+                    conv = True
+                if isinstance(x, ast.Raise) and "DimensionalityError('dimensionless', self._units)" in norm(x) and _shc.holds_at(x, fn_, is_q, False) and _shc.holds_at(x, fn_, dimless, False):
+                    guard = True
+        ck.check(conv, "G-TAG", f"{q}|{var}-converted-to-own-units", f.loc(), f"{var} is converted to the array's units", f"{q}: a Quantity `{var}` is no longer converted to the units of the array (`{var}.to(self).magnitude`) before use")
+        ck.check(guard, "G-DOM", f"{q}|bare-{var}-needs-dimensionless", f.loc(), "a bare number is only accepted for dimensionless arrays", f"{q}: a bare `{var}` is accepted for dimensional arrays (no DimensionalityError for a non-Quantity bound of a dimensional array)")
     f = ix.func(NF, "_copyto")
     ck.check("src = src.m_as(dst.units)" in norm(f.node), "G-TAG", "_copyto|source-converted-to-destination-units", f.loc(), "source converted to destination units", "_copyto no longer converts the source to the destination's units")
     f = ix.func(NF, "_where")
